@@ -27,13 +27,14 @@ Section LoopFacts.
     induction p; intros; cbn [iterP].
     - rewrite Pos2Nat.inj_xI.
       replace (Datatypes.S (2 * Pos.to_nat p)) with (Pos.to_nat p + (Pos.to_nat p + 1))%nat by lia.
-      rewrite iterN_add, IHp. destruct (iterN (Pos.to_nat p) s); auto.
-      rewrite iterN_add, IHp. destruct (iterN (Pos.to_nat p) s0); auto.
-      rewrite iterN_1; auto.
+      rewrite iterN_add, IHp. destruct (iterN (Pos.to_nat p) s) as [s1|r1]; [|reflexivity].
+      rewrite iterN_add, IHp. destruct (iterN (Pos.to_nat p) s1) as [s2|r2]; [|reflexivity].
+      rewrite iterN_1. reflexivity.
     - rewrite Pos2Nat.inj_xO.
       replace (2 * Pos.to_nat p)%nat with (Pos.to_nat p + Pos.to_nat p)%nat by lia.
-      rewrite iterN_add, IHp. destruct (iterN (Pos.to_nat p) s); auto.
-    - rewrite Pos2Nat.inj_1. rewrite iterN_1; auto.
+      rewrite iterN_add, IHp. destruct (iterN (Pos.to_nat p) s) as [s1|r1]; [|reflexivity].
+      apply IHp.
+    - rewrite Pos2Nat.inj_1. rewrite iterN_1. reflexivity.
   Qed.
 
   (* an invariant kept by every continuing step holds in the state from which the loop exits *)
@@ -43,7 +44,7 @@ Section LoopFacts.
   Proof.
     intros Inv Hpres. induction n; intros s r Hs H; cbn [iterN] in H; try discriminate.
     destruct (step s) eqn:E.
-    - eapply IHn; eauto.
+    - eapply IHn; [eapply Hpres; eauto | exact H].
     - inversion H; subst. eauto.
   Qed.
 
